@@ -86,6 +86,14 @@ def case_history(ctx, spec):
             if op[0] == "next":
                 if held:
                     dates_with_pos += 1
+                # a date change moves value by exactly the mark-to-market of the positions actually held (executed quantities, not recorded rows)
+                M = run.model
+                mtm = 0.0
+                for sec in M.root.securities():
+                    if sec.pos != 0:
+                        mtm += sec.pos * (M.px(sec, M.i) - M.px(sec, M.i - 1)) * sec.mult
+                if not machine.close(v1 - v0, mtm, cap, rel=1e-9, ab=1e-6):
+                    raise Violation("%s changed root value by %r but the positions held (executed quantities) were marked by %r" % (tag, v1 - v0, mtm), signature="date-change-mtm")
                 continue
             cost = sum(fee + bo for _, _, _, fee, bo in applied)
             if cost != 0:
